@@ -231,6 +231,17 @@ pub fn bh_family(cap: usize, thorough: bool) -> Vec<Vec<u8>> {
     out.push(ramp(cap, 0));
     out.push(vec![0; cap]);
     out.push(vec![63; cap]);
+    // a run of every one of the 64 symbols: leading, in the middle, trailing
+    for sym in 0..64u8 {
+        for k in [3usize, 4, 7] {
+            out.push(vec![sym; k]);
+            let o = (sym as usize + 20) % 64;
+            let mut mid = vec![o as u8, ((o + 1) % 64) as u8];
+            mid.extend(vec![sym; k]);
+            mid.push(((o + 2) % 64) as u8);
+            out.push(mid);
+        }
+    }
     out.sort();
     out.dedup();
     // shortest first so the first counterexample is the simplest
